@@ -19,6 +19,8 @@ import (
 
 	"github.com/fasthttp/websocket"
 	"github.com/hprose/hprose-golang/v3/rpc/core"
+	"github.com/hprose/hprose-golang/v3/rpc/plugins/oneway"
+	"github.com/hprose/hprose-golang/v3/rpc/plugins/timeout"
 	"pgregory.net/rapid"
 	"verif/hp/echo"
 	"verif/hp/ev"
@@ -169,6 +171,7 @@ type proxy struct {
 type endpoint struct {
 	kind    string
 	pool    int
+	plugin  string
 	server  *tp.Server
 	a, b    *core.Client
 	pa, pb  *proxy
@@ -189,10 +192,32 @@ func setup() {
 			endpoints = append(endpoints, newEndpoint(kind, pool))
 		}
 	}
+	// the same service behind the ExecuteTimeout plugin (which runs the call in a goroutine of its own)
+	for _, kind := range []string{"tcp", "http", "mock", "udp", "ws"} {
+		endpoints = append(endpoints, newEndpointWith(kind, 0, "execute-timeout"))
+	}
+	for _, kind := range []string{"tcp", "http", "mock"} {
+		endpoints = append(endpoints, newEndpointWith(kind, 0, "oneway"))
+	}
 }
 
-func newEndpoint(kind string, pool int) *endpoint {
+func newEndpoint(kind string, pool int) *endpoint { return newEndpointWith(kind, pool, "") }
+
+func newEndpointWith(kind string, pool int, plugin string) *endpoint {
 	s := newFaultService()
+	if plugin == "execute-timeout" {
+		s.Use(timeout.New(10 * time.Second))
+	}
+	if plugin == "oneway" {
+		// calls of boom are executed one-way: the caller does not wait for them
+		s.Use(func(ctx context.Context, name string, args []interface{}, next core.NextInvokeHandler) ([]interface{}, error) {
+			if strings.EqualFold(name, "boom") {
+				core.GetServiceContext(ctx).Items().Set("oneway", true)
+			}
+			return next(ctx, name, args)
+		})
+		s.Use(oneway.Oneway{}.Handler)
+	}
 	if pool > 0 {
 		tp.SetPool(s, tp.NewGoPool(pool))
 	}
@@ -200,7 +225,7 @@ func newEndpoint(kind string, pool int) *endpoint {
 	if err != nil {
 		panic(err)
 	}
-	ep := &endpoint{kind: kind, pool: pool, server: srv, a: srv.Client(4 * time.Second), b: srv.Client(4 * time.Second), pa: &proxy{}, pb: &proxy{}, service: s}
+	ep := &endpoint{kind: kind, pool: pool, plugin: plugin, server: srv, a: srv.Client(4 * time.Second), b: srv.Client(4 * time.Second), pa: &proxy{}, pb: &proxy{}, service: s}
 	ep.a.UseService(ep.pa)
 	ep.b.UseService(ep.pb)
 	return ep
@@ -284,6 +309,10 @@ func faults() []fault {
 		k := k
 		fs = append(fs, fault{name: "function panics: " + k, level: "call", run: func(ep *endpoint, id int64) string {
 			res, err := ep.pa.Boom(k)
+			if ep.plugin == "oneway" {
+				time.Sleep(5 * time.Millisecond) // the caller of a one-way call does not learn about the panic
+				return ""
+			}
 			return expectError("the panicking function", err, res)
 		}})
 	}
@@ -623,7 +652,7 @@ func TestEveryFault(t *testing.T) {
 			if ev.S.NShards > 1 && k%ev.S.NShards != ev.S.Shard {
 				continue
 			}
-			canon := fmt.Sprintf("%s pool=%d fault: %s (calls of the same and of another client in flight)", ep.kind, ep.pool, f.name)
+			canon := fmt.Sprintf("%s pool=%d %s fault: %s (calls of the same and of another client in flight)", ep.kind, ep.pool, ep.plugin, f.name)
 			ev.S.Begin("every-fault", canon)
 			serial.Lock()
 			problem := runCase(ep, f, true, 1)
@@ -672,7 +701,7 @@ func TestFaultSequences(t *testing.T) {
 			}{f, infl, rep})
 			names = append(names, fmt.Sprintf("%s x%d inflight=%v", f.name, rep, infl))
 		}
-		canon := fmt.Sprintf("%s pool=%d faults: %s", ep.kind, ep.pool, strings.Join(names, "; "))
+		canon := fmt.Sprintf("%s pool=%d %s faults: %s", ep.kind, ep.pool, ep.plugin, strings.Join(names, "; "))
 		ev.S.Begin("fault-sequences", canon)
 		serial.Lock()
 		defer serial.Unlock()
